@@ -20,6 +20,8 @@ var vocab = []string{
 	"#", "$", "@", "*", "{", "}", "<", ">", "+", "-", "/", "%", "(", ")", ",", ":", "==", "!=", "<=", ">=", "&&", "||", "!", "=", "&", "|",
 	"0", "1", "2", "7", "100", "7999", "8000", "-1", "007", "99999999999", "2147483647", "2147483648",
 	"a", "b", "x", "i", "j", "lbl", "loop", "tgt", "_", "CORESIZE", "MAXLENGTH", "MAXPROCESSES", "MINDISTANCE", "CURLINE", "__for_i_lbl",
+	// identifiers that mean something to the host language (expressions are evaluated by a Go library)
+	"nil", "true", "false", "iota", "len", "cap", "rune", "int", "uint8", "string", "float64", "complex", "real", "imag", "append", "make", "new", "panic", "print", "any", "error", "copy", "min", "max",
 	"\n", "\n", "\n", "\n", " ", "\t", "\r\n", "\r",
 	";comment", ";assert 1", ";assert 0", ";assert CORESIZE==8000", ";assert a", ";name n", ";author", ";strategy", ";strategy x", ";redcode",
 }
@@ -51,6 +53,21 @@ var hostileFixed = []string{
 	"a equ b b\nb equ c c\nc equ d d\nd equ 1\ndat a\n",
 	"x equ ; nothing\ndat x\n",
 	"x equ;c\ny equ x\ndat y, x\n",
+	"for 1\ndat 0\nrof\na equ b+1\nb equ a+1\nfor a\ndat 1\nrof\n",
+	"a equ b+1\nb equ a+1\ni for a\ndat 1\nrof\n",
+	"i for 2\ndat i\nrof\nx equ x\nj for x\ndat j\nrof\n",
+	"imp mov 0, 1\nfor rune\ndat 0\nrof\n",
+	"for nil\ndat 0\nrof\n",
+	"for len\ndat 0\nrof\n",
+	"for true\ndat 0\nrof\n",
+	"i for iota+1\ndat i\nrof\n",
+	"dat true, false\n",
+	"dat nil\n",
+	";assert true\ndat 0\n",
+	";assert nil\ndat 0\n",
+	";assert len\ndat 0\n",
+	"x equ true\ndat x\n",
+	"org nil\ndat 0\n",
 	"i for q\ndat i\nrof\n",
 	"i for 1/0\ndat i\nrof\n",
 	"i for 2\ndat i\nrof\ndat 1 = 2\n",
@@ -332,7 +349,8 @@ func mutateTokens(r *Rng, s string) string {
 				lines = append(lines[:i+1], lines[i+2:]...)
 			}
 		case 5: // insert a pseudo-op line
-			l := []string{"rof", "i for 2", "j for 0", "x equ x", "x equ 1+", "org lbl", "end 1", "end", "lbl for 3", "for 2", ";assert x", ";assert 0", "k for 2 ; c"}[r.Intn(13)]
+			l := []string{"rof", "i for 2", "j for 0", "x equ x", "x equ 1+", "org lbl", "end 1", "end", "lbl for 3", "for 2", ";assert x", ";assert 0", "k for 2 ; c",
+				"x equ y+1", "y equ x+1", "i for x", "for y", "for nil", "for len", "q for true", "z equ nil"}[r.Intn(21)]
 			lines = append(lines[:i], append([]string{l}, lines[i:]...)...)
 		default: // insert an operator
 			lines[i] += []string{" =", " |", " &", " ==", " (", " )", " ,", " :", " +", " -"}[r.Intn(10)]
